@@ -202,3 +202,32 @@ End Sched.
 Definition run_shistory {A} (sync : bool) (bs w : option Z) (fuel : nat) (h : rhistory A)
   : list (@revent A) * bool :=
   let c := srun sync (rreact_tbl (snd h)) fuel (sinit_cfg sync bs w (fst h)) in (slog_of c, sfinished c).
+
+(* ---- the virtual-time scheduler drained EXPLICITLY (C22, harness mode 'explicit') ----
+   The top level is a PROGRAM of calls and drains: [XOp p] = the driver makes the call
+   p, [XDrain] = the driver runs the scheduler to exhaustion
+   (VirtualTimeScheduler.start(): the [SIDrain] loop above).  Between two drains the
+   scheduled ScheduledObserver.run actions stay queued in [r_sched], so a top-level
+   unsubscribe / emission / subscribe / clock advance can happen WHILE replay items
+   are still queued (subscribe, then unsubscribe before the scheduler runs: the item is
+   cancelled through RemovableDisposable.dispose -> ScheduledObserver.dispose; two
+   emissions batched before one drain; ...).  A clock advance does not reorder the
+   queue: every action is scheduled for `now` and the clock never decreases, so due
+   times are monotone in insertion order.
+   [sinit_cfg false] is the special case `a drain after every call`, [sinit_cfg true]
+   the special case `no explicit drain` (ReplayDrainFacts.sinit_cfg_is_xinit); the
+   engine ([sstep], [srun]) is unchanged. *)
+Inductive xtop {A : Type} := XOp (p : @rop A) | XDrain.
+Arguments xtop A : clear implicits.
+
+Definition xinstr {A} (x : xtop A) : @sinstr A :=
+  match x with XOp p => SIOp true p | XDrain => SIDrain end.
+
+Definition xinit_cfg {A} (bs w : option Z) (prog : list (xtop A)) : @scfg A :=
+  SCfg (rinit_state bs w) (fun _ => None) (map xinstr prog) [].
+
+Definition xhistory (A : Type) := (list (xtop A) * list (nat * list (list (@rop A))))%type.
+
+Definition run_xhistory {A} (sync : bool) (bs w : option Z) (fuel : nat) (h : xhistory A)
+  : list (@revent A) * bool :=
+  let c := srun sync (rreact_tbl (snd h)) fuel (xinit_cfg bs w (fst h)) in (slog_of c, sfinished c).
